@@ -205,6 +205,12 @@ class MBuf:
         self.kind = kind        # file | string | inplace
         self.fresh = True
         self.dead = False
+        self.base = 0           # offset in the source of data[0] (when no push-back at front)
+        self.pushed = 0         # bytes inserted in front of data by yyunput
+
+    def src_consumed(self):
+        """Lower bound on the number of source bytes the scanner must have been given."""
+        return max(0, self.base + self.pos - self.pushed)
 
 
 def hexs(b):
@@ -561,6 +567,7 @@ class Model:
                 b.data[b.pos] = c
             else:
                 b.data.insert(0, c)
+                b.pushed += 1
             if c == 10:
                 self.ln_add(-1)
         self.f("yyunput", len(data))
@@ -683,6 +690,10 @@ class Model:
             self.bufs[slot] = MBuf(self.sources[op[1]], op[1])
             self.bstack = [slot]
             self.emit(["X", "open", str(op[1])])
+        elif k == "open_buf":        # explicit buffer in slot 0 on source op[1], made current
+            self.bufs[0] = MBuf(self.sources[op[1]], op[1])
+            self.bstack = [0]
+            self.emit(["X", "open_buf", str(op[1])])
         elif k == "newin":           # after termination: yyin = new source, call yylex again
             b = self.cur()
             b.data = bytearray(self.sources[op[1]])
@@ -746,6 +757,9 @@ class Model:
             del self.bufs[op[1]]
             self.emit(["X", "delete", str(op[1])])
             self.f("delete")
+        elif k in ("gcreate", "gswitch", "gpush", "gpop", "gdelete", "gscan_bytes",
+                   "gscan_string", "gscan_buffer", "gflush"):
+            self.do_guarded(op)
         elif k == "setlineno":
             if self.track_ln:
                 if self.per_buf_lineno:
@@ -755,6 +769,126 @@ class Model:
             self.emit(["X", "setlineno", str(op[1])])
         else:
             raise ValueError("unknown driver op %r" % (op,))
+
+
+    # guarded buffer operations: executed only when valid in the current state; harness
+    # and model apply the same validity rules (see emit.Emitter.buffer_helpers)
+    def src_in_use(self, src):
+        return any(b.src == src for b in self.bufs.values())
+
+    def do_guarded(self, op):
+        k = op[0]
+        name = k[1:]
+        st = self.bstack
+        if k == "gcreate":
+            _, s, src = op[:3]
+            if s in self.bufs or self.src_in_use(src):
+                self.emit(["X", "skip", name])
+                return
+            self.bufs[s] = MBuf(self.sources[src], src)
+            self.emit(["X", "create", str(s), str(src)])
+            self.f("create")
+        elif k in ("gswitch", "gpush"):
+            s = op[1]
+            if s not in self.bufs or s in st:
+                self.emit(["X", "skip", name])
+                return
+            if k == "gswitch":
+                st[-1] = s
+                self.emit(["X", "switch", str(s)])
+                self.f("switch")
+                b = self.bufs[s]
+                if b.pos > 0 and not b.bol:
+                    self.f("switch_back_midline")
+            else:
+                st.append(s)
+                self.emit(["X", "bpush", str(s)])
+                self.f("bpush_depth_%d" % min(len(st) // 8, 9))
+            self.more_pending = False
+        elif k == "gpop":
+            if len(st) <= 1:
+                self.emit(["X", "skip", name])
+                return
+            self.pop_buffer()
+            self.emit(["X", "bpop"])
+            self.f("bpop")
+        elif k == "gdelete":
+            s = op[1]
+            if s not in self.bufs or s in st:
+                self.emit(["X", "skip", name])
+                return
+            del self.bufs[s]
+            self.emit(["X", "delete", str(s)])
+            self.f("delete")
+        elif k in ("gscan_bytes", "gscan_string"):
+            _, s, si = op[:3]
+            if s in self.bufs:
+                self.emit(["X", "skip", name])
+                return
+            data = self.case["strings"][si]
+            if k == "gscan_string":
+                z = data.find(b"\0")
+                if z >= 0:
+                    data = data[:z]
+            self.bufs[s] = MBuf(data, None, "string")
+            st[-1] = s
+            self.emit(["X", name, str(s), str(si)])
+            self.f(name)
+        elif k == "gscan_buffer":
+            _, s, si, ok = op[:4]
+            if s in self.bufs:
+                self.emit(["X", "skip", name])
+                return
+            if ok:
+                self.bufs[s] = MBuf(self.case["strings"][si], None, "inplace")
+                st[-1] = s
+                self.emit(["X", name, str(s), str(si), "ok"])
+                self.f("scan_buffer_ok")
+            else:
+                self.emit(["X", name, str(s), str(si), "null"])
+                self.f("scan_buffer_null")
+        elif k == "gflush":
+            s = op[1]
+            if s not in self.bufs:
+                self.emit(["X", "skip", name])
+                return
+            b = self.bufs[s]
+            if b.kind != "file":
+                # a string buffer has nothing to refill from: everything is discarded
+                self.emit(["X", "flush", str(s), "-"])
+                b.pos = len(b.data)
+            else:
+                # buffered text is discarded: scanning resumes at the first byte the source
+                # has not delivered yet (observed; must lie between the scan position of
+                # the original text and the end)
+                i = len(self.out)
+                ev = ["X", "flush", str(s), "*"]
+                self.emit(ev, wild={3})
+                ob = self.out[-1]
+                if self.obs is not None:
+                    try:
+                        d = int(ob[3])
+                    except ValueError:
+                        raise Divergence(i, ev, ob, "flush position")
+                    consumed_src = b.src_consumed()
+                    if d < consumed_src or d > len(self.sources[b.src]):
+                        raise Divergence(i, ["X", "flush", str(s), ">=%d" % consumed_src], ob,
+                                         "flush discarded text the source never delivered, "
+                                         "or delivered count below what was scanned")
+                    b.data = bytearray(self.sources[b.src][d:])
+                    b.pos = 0
+                    b.base = d
+                else:
+                    b.data = bytearray()
+                    b.pos = 0
+            b.bol = True
+            b.pushed = 0
+            self.f("flush")
+            if s == st[-1]:
+                self.f("flush_current")
+                self.more_pending = False
+            else:
+                self.f("flush_noncurrent")
 
 
 def parse_log(text):
